@@ -45,3 +45,23 @@ Theorem C10_chain_with_sourceless_invents_nothing : forall (B : Type) (m1 : list
   In (k, b) (chain_opt m1 m2) -> exists t1, In t1 m1 /\ k = fst t1 /\ retarget m2 t1 = Some (k, Some b).
 Proof. exact @chain_opt_keys. Qed.
 Print Assumptions C10_chain_with_sourceless_invents_nothing.
+
+(** ** Which comment supplies the original map.  The comment store is iterated in an arbitrary order; the
+    selection loop of [extract_source_map] (its comparison is read from the code on every run) returns the
+    qualifying comment at the greatest position, and every iteration order gives the same result. *)
+From IastRw Require Import Comments P_Comments.
+
+Theorem C10_last_comment_wins : forall (q : string -> bool) (l : list comment),
+  match select q l with
+  | Some c => In c l /\ q (snd c) = true /\ forall p t, In (p, t) l -> q t = true -> (p <= fst c)%N
+  | None => forall p t, In (p, t) l -> q t = false
+  end.
+Proof. exact select_is_last. Qed.
+Print Assumptions C10_last_comment_wins.
+
+Theorem C10_comment_choice_is_order_independent : forall (q : string -> bool) (l l' : list comment),
+  Permutation.Permutation l l' ->
+  (forall p t t', In (p, t) l -> In (p, t') l -> q t = true -> q t' = true -> t = t') ->
+  select q l = select q l'.
+Proof. exact select_order_independent. Qed.
+Print Assumptions C10_comment_choice_is_order_independent.
